@@ -1,26 +1,45 @@
 # bin/check configuration of property C04 (a single dict expression)
 {'harness': 'c04',
  'props': 'Props/C04.v',
- 'models': ['Base/Tree.v', 'Model/Stream.v'],
- 'trusted': ['encoding/xml and encoding/json tokenisers: the token stream is a function of the document '
-             '(checked per case: the tokens an independent decoder returns equal xevents/jevents of the '
-             'document rebuilt from them)',
-             'antchfx/xpath engine: for targets of the class its result is sel pm pred (path predicate on '
-             'the element-name chain, final predicates on the candidate subtree); validated per case against '
-             'idr.MatchAll on the fully loaded document',
-             'XML namespace resolution (space2prefix) is outside the model: tokens carry the resolved '
-             'prefix/URI',
-             'engine behaviour the model follows because both evaluations (streaming and whole document) go '
-             'through the same engine: a non-initial "//" step and ".//x" include the context node itself; '
-             'MatchAll results are read as a set in document order (the engine returns duplicates and its '
-             'own order for "//a//b"); generated predicates keep filtered steps x[..] out of the LEFT '
-             'operand of and/or (antchfx/xpath v1.1.11 evaluates the right operand on a moved context '
-             'there)',
-             'process-wide state shared by readers is not in the model (a reader model has none): checked on the implementation by '
-             'the interleaving oracle - 2-3 readers alive at once on one goroutine, read alternately with random switch points, '
-             'each must deliver what it delivers alone (same URI under different prefixes, and random XML/JSON pairs)',
-             'namespace declarations on inner elements: the model takes the names as the reader resolves them (document-wide '
-             'last-wins URI->prefix map, F11); stream vs whole-document selection is compared through the same resolution'],
- 'assumptions': ['xml_no_doc_target: the path part does not select the XML document node itself (targets "." '
-                 'and "/" make the XML reader deliver the top-level elements instead)',
-                 'releases are of the node the last Read returned (or absent)']}
+ 'models': ['Base/Tree.v', 'Gen/StreamSplit.v', 'Model/Stream.v'],
+ 'trusted': ['encoding/xml and encoding/json tokenisers: the token stream is a function of the document (checked per case: the tokens an independent '
+             'decoder returns equal xevents/jevents of the document rebuilt from them)',
+             'antchfx/xpath engine: for targets of the class its result is sel pm pred (path predicate on the element-name chain, final predicates '
+             'on the candidate subtree); validated per case against idr.MatchAll on the fully loaded document',
+             'XML namespace resolution (space2prefix) is outside the model: tokens carry the resolved prefix/URI',
+             'engine behaviour the model follows because both evaluations (streaming and whole document) go through the same engine: a non-initial '
+             '"//" step and ".//x" include the context node itself; MatchAll results are read as a set in document order (the engine returns '
+             'duplicates and its own order for "//a//b"); generated predicates keep filtered steps x[..] out of the LEFT operand of and/or '
+             '(antchfx/xpath v1.1.11 evaluates the right operand on a moved context there)',
+             'process-wide state shared by readers is not in the model (a reader model has none): checked on the implementation by the interleaving '
+             'oracle - 2-3 readers alive at once on one goroutine, read alternately with random switch points, each must deliver what it delivers '
+             'alone (same URI under different prefixes, and random XML/JSON pairs)',
+             'namespace declarations on inner elements: the model takes the names as the reader resolves them (document-wide last-wins URI->prefix '
+             'map, F11); stream vs whole-document selection is compared through the same resolution',
+             'EXTRACTED on every run (harness/cmd/extract/gen_stream.go -> coq/Gen/StreamSplit.v): the characters removeLastFilterInXPath reacts to '
+             '(closing bracket tested first, the two quotes, the decrementing and the incrementing bracket), the loop shape and trim cutset of '
+             'removeTrailingFiltersInXPath, which of the two functions New{XML,JSON}StreamReader applies and that the closing check is installed iff '
+             'the texts differ; split_filter_sound / split_filter_readers are re-proved over these; an unrecognised shape makes Gen/StreamSplit.v '
+             'uncompilable and all C04/C17 theorems stop checking',
+             'PROVED (all inputs): stream = whole-document selection for XML and JSON (xml/json_stream_eq_select), outermost-then-filter = recursive '
+             'spec, the split for every well-formed target, the attribute loop for every attribute list incl. empty values (xml_attribute_loop, '
+             'xml_start_element), cur/stream bookkeeping restored after every element (xml_element_bookkeeping), the small-step invariant over '
+             'arbitrary token sequences (stream_invariant_partial), independence of readers under every schedule (reader_independent, '
+             'interleaved_eq_solo)',
+             'COMPARED ONLY (no theorem): the public Transform API stream (ingester plumbing), deliveries under interleaving on the implementation, '
+             'name resolution with re-bound prefixes'],
+ 'assumptions': ['xml_no_doc_target: the path part does not select the XML document node itself (targets "." and "/" make the XML reader deliver the '
+                 'top-level elements instead)',
+                 'releases are of the node the last Read returned (or absent)',
+                 'readers share no state (reader_independent is about the model; the interleaving oracle checks the implementation)'],
+ 'level_text': 'Coq theorems over a line-by-line model of idr/xmlreader.go and idr/jsonreader.go (zipper + stream pointer; candidate check on the '
+               'whole tree, closing check by node identity, pruning, Release/Read prologue, the attribute loop turn by turn, JSON type flags): for '
+               'every document, every target of the class (arbitrary path predicate on the name chain + arbitrary predicate on the subtree) and '
+               'every Release pattern the deliveries equal the whole-document selection; the xpath split is proved on the concrete syntax over '
+               'character classes and call shapes extracted from the source on every run; tied to the code by a correspondence check (same tokens, '
+               'same target, deliveries and reachable sizes equal) and a Go-side oracle against idr.MatchAll, plus interleaved readers and the '
+               'public Transform API.',
+ 'level_note': 'Trusted: Coq kernel/vm_compute, the Go harness and extractor, encoding/xml, encoding/json and the xpath engine (modelled for the '
+               'class, validated per case); no axioms (Print Assumptions: closed).',
+ 'technique': 'machine-checked proof in Coq 8.16 (structural induction over documents, small-step invariant over arbitrary token sequences, schedule '
+              'induction for interleaved readers) + model/implementation correspondence + extracted constants and call shapes'}
